@@ -2,8 +2,8 @@
    Models: Syn/Expr.v (Expr tree, Equal, ProvisionalName), Syn/Expand.v (syntax.Expand: expandRule,
    expandExpr, extractNonterm, sortTail, Rearrange, list/optional rule synthesis), Syn/ExtLang.v (the
    meaning of the extended notation: [den]).  Lemmas: Syn/Expand_proofs.v. *)
-From Coq Require Import List ZArith Bool Lia.
-From TM Require Import Gram.Cfg Gram.Derive Syn.Expr Syn.Expand Syn.ExtLang Syn.Expand_proofs Syn.Expand_global Syn.Expand_derives Syn.Expand_correct.
+From Coq Require Import List ZArith Bool Lia Permutation.
+From TM Require Import Gram.Cfg Gram.Derive Syn.Expr Syn.Expand Syn.ExtLang Syn.Expand_proofs Syn.Expand_global Syn.Expand_derives Syn.Expand_correct Syn.SortPerm Syn.Expand_perm.
 Import ListNotations.
 Local Open Scope Z_scope.
 
@@ -18,7 +18,11 @@ Local Open Scope Z_scope.
    of flat choices with [Derive.derives] of the grammar [to_cfg] reads from it; tables that still contain set /
    lookahead nonterminals are outside that bridge (sets are resolved by C15).
    NOT PROVED: that [expand_checks] holds for every well-formed model (i.e. that sortTail always builds a
-   permutation); it is evaluated per run instead.  The per-step theorems keep the suffix _partial. *)
+   permutation); it is evaluated per run instead.  Building blocks proved for all inputs (this round):
+   C13_sort_tail_sort_partial -- the sort inside sortTail permutes its local list, the local list has no
+   duplicates, and every permutation of 0..n-1 passes the check perm_ok; missing: the loop invariant of phase 1
+   (the slots start+base+k handed out by sortTail are exactly the slots the local nonterminals held before).
+   The per-step theorems keep the suffix _partial. *)
 
 (* the whole of Expand *)
 Theorem C13_expand_correct :
@@ -116,6 +120,15 @@ Theorem C13_expand_shape :
     Forall (fun a => sugar_free a = true) alts.
 Proof. exact expand_expr_shape. Qed.
 
+(* sortTail: the sort is a sort (all name functions, all lists); the local list is duplicate free; a permutation
+   of 0..n-1 satisfies the run-time check of C13_expand_correct *)
+Theorem C13_sort_tail_sort_partial :
+  (forall names l, Permutation (sort_by_name names l) l) /\
+  (forall start curr total size, (S curr <= total - size)%nat ->
+     NoDup (seq start (S curr - start) ++ seq (total - size) size)) /\
+  (forall perm n, Permutation perm (seq 0 n) -> perm_ok perm n = true).
+Proof. exact (conj sort_by_name_perm (conj sort_tail_local_nodup permutation_perm_ok)). Qed.
+
 (* non-vacuity: N0 : (a separator b)* c? | set(a|b) ;  (terminals a b c = 0 1 2, N0 = 3) *)
 Definition ex_model : model :=
   mkModel [[97]; [98]; [99]] []
@@ -157,3 +170,4 @@ Print Assumptions C13_expand_preserves_partial.
 Print Assumptions C13_list_rules_unfold.
 Print Assumptions C13_equal_expressions_same_language.
 Print Assumptions C13_expand_shape.
+Print Assumptions C13_sort_tail_sort_partial.
